@@ -1,8 +1,89 @@
 import JokerVerif.Drive.Common
-/-! Driver handlers for C01 C03 C04 C07 (to be filled in). -/
+import JokerVerif.Model.Kernel
+/-! Driver handlers for C01 C03 C04 C07: the kernel evaluated exactly over `ℚ`
+(every IEEE double is a rational; inputs arrive as 64-bit patterns). -/
 open Lean Drive
+
 namespace Drive
 
-def kernelOps : List (String × H) := []
+/-- exact rational value of an IEEE-754 binary64 bit pattern (finite values only) -/
+def ratOfBits (b : Nat) : Rat :=
+  let sign : Int := if (b / 2^63) % 2 == 1 then -1 else 1
+  let e : Nat := (b / 2^52) % 2048
+  let m : Nat := b % 2^52
+  if e == 0 then ((sign * Int.ofNat m : Int) : Rat) / ((2:Rat) ^ 1074)
+  else
+    let mant : Int := sign * Int.ofNat (m + 2^52)
+    if e ≥ 1075 then (mant : Rat) * (2:Rat) ^ (e - 1075) else (mant : Rat) / (2:Rat) ^ (1075 - e)
+
+def isFiniteBits (b : Nat) : Bool := (b / 2^52) % 2048 != 2047
+
+def getRats (j : Json) (k : String) : Except String (Array Rat) := do
+  let a ← getNats j k
+  if a.all isFiniteBits then return a.map ratOfBits else throw s!"non-finite double in {k}"
+
+def getRat (j : Json) (k : String) : Except String Rat := do
+  let b ← getNat j k
+  if isFiniteBits b then return ratOfBits b else throw s!"non-finite double in {k}"
+
+def jRat (q : Rat) : Json := Json.str (toString q)
+def jRats (a : List Rat) : Json := Json.arr (a.map jRat).toArray
+
+def vecOf (a : Array Rat) (n : Nat) : Vector Rat n := Vector.ofFn fun i => a.getD i.val 0
+
+def mkKIn (j : Json) : Except String (Σ n k, Kernel.KIn n k Rat) := do
+  let n ← getNat j "n"; let k ← getNat j "k"
+  let M ← getRats j "M"; let y ← getRats j "y"; let iv ← getRats j "ivar"
+  let mu ← getRats j "mu"; let lam ← getRats j "lam"; let s ← getRat j "s"
+  if M.size != n * k || y.size != n || iv.size != n || mu.size != k || lam.size != k then
+    throw "shape mismatch"
+  return ⟨n, k, { M := .ofFn fun i jj => M.getD (i.val * k + jj.val) 0, y := vecOf y n, ivar := vecOf iv n,
+                  s := s, mu := vecOf mu k, lam := vecOf lam k }⟩
+
+/-- chi², det B (fast form), a, A; `"singular"` if `det Ainv = 0` or a prior variance / inverse variance is 0
+(the real code returns `+inf` / a non-finite value there) -/
+def kernelEvalOp : H := fun j => do
+  let ⟨n, k, x⟩ ← mkKIn j
+  let sv := Kernel.sIvar x
+  if (List.finRange n).any (fun i => sv[i] == 0) || (List.finRange k).any (fun jj => x.lam[jj] == 0) then
+    return Json.mkObj [("singular", Json.str "zero variance")]
+  let Ainv := Kernel.kAinv x
+  if Ainv.toM.det == 0 then return Json.mkObj [("singular", Json.str "det Ainv = 0")]
+  let full := (j.getObjValAs? Bool "full").toOption.getD false
+  let base := [("chi2", jRat (Kernel.kchi2 x)), ("detB", jRat (Kernel.kdetFast x)),
+               ("a", jRats (Kernel.ka x).toList),
+               ("A", Json.arr ((Kernel.kA x).toLists.map jRats).toArray)]
+  let extra := if full then
+      [("B", Json.arr ((Kernel.kB x).toLists.map jRats).toArray),
+       ("Binv", Json.arr ((Kernel.kBinv x).toLists.map jRats).toArray),
+       ("Ainv", Json.arr (Ainv.toLists.map jRats).toArray),
+       ("b", jRats (Kernel.kb x).toList)] else []
+  return Json.mkObj (base ++ extra)
+
+def lambdaKOp : H := fun j => do
+  let s0 ← getRat j "sigmaK0"; let mk ← getRat j "maxK"; let e ← getRat j "e"; let pw ← getRat j "pw"
+  if 1 - e ^ 2 == 0 then return Json.mkObj [("singular", Json.str "e = 1")]
+  return Json.mkObj [("lamK", jRat (Kernel.lambdaK s0 mk e pw))]
+
+/-- design row `[kep | 1 | indicators | powers of dt]` -/
+def designRowOp : H := fun j => do
+  let kep ← getRat j "kep"; let dt ← getRat j "dt"
+  let id ← getNat j "id"; let q ← getNat j "q"; let p ← getNat j "p"
+  return Json.mkObj [("row", jRats (Kernel.designRow kep dt id q p))]
+
+/-- slots in column order from a prior description -/
+def slotsOp : H := fun j => do
+  let K ← getRats j "K"; let v0 ← getRats j "v0"
+  let offM ← getRats j "offMu"; let offV ← getRats j "offVar"
+  let trM ← getRats j "trMu"; let trV ← getRats j "trVar"
+  let pr : Kernel.LinPrior Rat :=
+    { K := (K.getD 0 0, K.getD 1 0), v0 := (v0.getD 0 0, v0.getD 1 0),
+      offsets := offM.toList.zip offV.toList, trend := trM.toList.zip trV.toList }
+  let sl := Kernel.slots pr
+  return Json.mkObj [("mu", jRats (sl.map (·.1))), ("lam", jRats (sl.map (·.2)))]
+
+def kernelOps : List (String × H) :=
+  [("kernel.eval", kernelEvalOp), ("kernel.lambdaK", lambdaKOp), ("kernel.designRow", designRowOp),
+   ("kernel.slots", slotsOp)]
 
 end Drive
